@@ -3,12 +3,13 @@ import dataclasses
 from obligations import C08 as _c08
 from obligations.C08 import LFHT_TRUSTED
 
-SEL = ('C06.O1.add_unique', 'C06.O1.add_unique_small', 'C06.O2.replace', 'C06.O2.replace_removed', 'C06.O2.replace_api', 'C08.O4.next_duplicate', 'C07.O1.del', 'C07.O1.del_twice',
+SEL = ('C08.O5.add_bucket', 'C06.O1.add_unique', 'C06.O1.add_unique_small', 'C06.O2.replace', 'C06.O2.replace_removed', 'C06.O2.replace_api', 'C08.O4.next_duplicate', 'C07.O1.del', 'C07.O1.del_twice',
        'C06.O3.cds_lfht_add', 'C06.O3.cds_lfht_add_unique', 'C06.O3.cds_lfht_add_replace', 'C06.O3.cds_lfht_del')
 OBLIGATIONS = [o for o in _c08.OBLIGATIONS if o.name in SEL]
 META = {
     'level': 'proof', 'bounded_apart': True,
     'trusted_base': LFHT_TRUSTED,
-    'assumptions': ['absence of transient duplicates for a concurrent traversal over all schedules follows from "insert at the head of the equal-hash run" + "replace = one CAS" by the list argument, not machine-checked',
+    'assumptions': ['C08.O5.add_bucket is part of this property because uniqueness across a GROW depends on every new bucket node being linked BEFORE all nodes of equal reverse hash (else a resident key becomes unreachable from its new bucket and add_unique inserts a second copy)',
+                    'absence of transient duplicates for a concurrent traversal over all schedules follows from "insert at the head of the equal-hash run" + "replace = one CAS" by the list argument, not machine-checked',
                     'single ownership: the replace CAS sets REMOVAL_OWNER in the same write and only succeeds over an un-REMOVED word; del returns 0 iff its exchange saw OWNER clear; flags only grow (all proved per write site) => at most one winner (pencil-and-paper last step)'],
 }
